@@ -177,7 +177,13 @@ def search(seed, tier, obligation, hints):
     for name, chk in CHECKS:
         for sd in range(seed * 100000, seed * 100000 + n):
             cases += 1
-            why = chk(sd)
+            try:
+                why = chk(sd)
+            except Exception as e:      # noqa -- the generator is driven with valid configurations only: an exception is a failure of the code under test
+                import traceback
+                tb = traceback.extract_tb(e.__traceback__)
+                where = next((f"{fr.filename.split('/')[-1]}:{fr.lineno}" for fr in reversed(tb) if "/pams/" in fr.filename), "?")
+                why = f"a valid configuration makes the generator raise {type(e).__name__}({e}) at {where}"
             if why:
                 return {"found": True, "input": {"check": name, "seed": sd}, "observed": {"function": "Fundamentals", "clause": why}, "witness_key": "Fundamentals|" + name, "cases": cases}
     if obligation and obligation.startswith("Market.change_fundamental_price"):
@@ -195,5 +201,8 @@ def replay(inp):
     if "events" in inp:
         from . import events
         return events.replay(inp["events"])
-    why = dict(CHECKS)[inp["check"]](inp["seed"])
+    try:
+        why = dict(CHECKS)[inp["check"]](inp["seed"])
+    except Exception as e:      # noqa
+        why = f"raises {type(e).__name__}({e})"
     return {"violated": bool(why), "clause": why}
